@@ -340,7 +340,8 @@ class ProgGen(object):
         """The single operand of an assignment / initialisation / return / yield: it may have side effects
         (a call of an impure function or of a closure), its own operands are pure."""
         r = self.r
-        if self.exns and not self.pure_mode and self.in_fun and self.in_gen is None and isinstance(t, str) and t != UNIT \
+        if self.exns and not self.pure_mode and self.in_fun and self.in_gen is None and not self.in_try \
+                and isinstance(t, str) and t != UNIT \
                 and d > 0 and r.random() < (0.6 if "try" in self.emph else 0.25):      # (try inside a generator: known finding, optimiser "bad case")
             save_loop = self.in_loop
             self.in_try += 1
@@ -598,15 +599,15 @@ class ProgGen(object):
         ps = [self.fresh("p") for _ in pts]
         scope = Scope(self.gscope, "fun")
         for p, t in zip(ps, pts):
-            scope.vars[p] = (t, False)
-            if isinstance(t, list) and t[0] == "arr":
-                pass            # length unknown: never indexed
+            # parameters are by-value locals of the function: scalar ones may be assigned to
+            # (only directly in the function body: a nested lambda / generator may not assign an outer parameter)
+            scope.vars[p] = (t, isinstance(t, str) and kind == "plain")
         save = (self.ret_t, self.in_loop, self.in_gen, self.no_ret)
         self.in_loop = 0
         self.in_fun += 1
         d = 2
         pure = kind in ("plain", "recur") and r.random() < 0.5
-        self.pure_mode, self.own = pure, (set() if pure else None)
+        self.pure_mode, self.own = pure, (set(p for p, t in zip(ps, pts) if isinstance(t, str) and kind == "plain") if pure else None)
         if kind == "gen":
             et = r.choice([SI, BI] if "bi" in self.feat else [SI])
             rt = ["gen", et]
